@@ -2,8 +2,8 @@
 oracle: random sequences (<= 10) of read-only operations on generated scenarios and on scenarios obtained by
         reading a written XML / protobuf file; after every operation, and after each of the two exports that follow
         it, the structural snapshot (raw stored data, caches excluded, attribute sets of states, dict key sets,
-        container types) is compared with the one taken before the sequence, and the exported XML and protobuf
-        bytes (date aside) with the first export.  The snapshot code is the harness's own (reads instance
+        container types) is compared with the one taken before the sequence, the exported XML and protobuf
+        bytes (date aside) with the first export, and the answer of a lanelet lookup with the first answer.  The snapshot code is the harness's own (reads instance
         dictionaries and slots only), so whatever changes is attributed to the operation that ran last.
 corr:   Model/ReadOnly.v run by vm_compute on the same sequences predicts, after every step, the attribute-name
         lists of all trajectory states, every goal-lanelet table (container kind + items), and which caches /
@@ -544,7 +544,7 @@ def classify(path):
 def run_case(case, workdir, want_model=False):
     """returns (None | (signature, what), trace); trace = (initial model state, [(op terms, raised, model state)])"""
     sc, pps = make(case, workdir)
-    other = copy.deepcopy((sc, pps))
+    other = make(case, workdir)   # an equal scenario built independently (a copy would itself be an operation)
     src = case["source"]
     s0 = [snapshot(sc), snapshot(pps)]
     m0 = m_state(sc, pps) if want_model else None
@@ -577,11 +577,25 @@ def run_case(case, workdir, want_model=False):
     r = exports(-1, "the start")
     if r:
         return r, None
+    pts = [np.array(la.center_vertices[len(la.center_vertices) // 2][:2]) for la in sc.lanelet_network.lanelets[:4]]
+
+    def probe():
+        """a lookup that touches no lazily filled field: it must keep answering as at the start"""
+        with warnings.catch_warnings():
+            warnings.simplefilter("ignore")
+            r = outcome_of(sc.lanelet_network.find_lanelet_by_position, pts)
+        return [r[0], [sorted(x) for x in r[1]] if r[0] == "ok" else r[1]]
+    p0 = probe()
     if want_model:   # the first exports are part of the history the model replays
         steps.append(([], False, m_state(sc, pps)))
     for i, op in enumerate(case["ops"]):
         terms, raised, excs = apply_op(sc, pps, op, workdir, other, want_model)
-        r = changed(op[0], i, op, excs[0] if excs else None) or exports(i, op)
+        r = changed(op[0], i, op, excs[0] if excs else None)
+        if not r and probe() != p0:
+            r = (f"{op[0]}:{src}:lookup-answer",
+                 f"step {i} {op} on a scenario (seed {case['seed']}, {src}): find_lanelet_by_position answered {p0} "
+                 f"before the sequence and {probe()} after this operation")
+        r = r or exports(i, op)
         if r:
             return r, None
         if want_model:
@@ -745,5 +759,5 @@ def run(ctx):
     corr(ctx, traces if ctx.quick else traces[:1500], cases)
     if (ctx.proof_breaks or ctx.corr_breaks) and not ctx.failures:
         ctx.log(f"proof/correspondence broke ({len(ctx.proof_breaks)}/{len(ctx.corr_breaks)}); widening the search")
-        run_all(gen(ctx.rng, n * 3), False)
+        run_all(gen(ctx.rng, ctx.n(n // 2, n)), False)
     return ctx.finish(RULE, assumptions=ASSUME)
